@@ -140,6 +140,37 @@ def run(run):
                             run.violation("C10:bad-json", "JSON result is not a well-formed document for %r" % text[:300], dict(query=text, result=rr["result"][:500]))
                     if (oc == "ok") != (model_class == "ok"):
                         mism.append(dict(query=text[:300], real=oc, model=m[:2]))
+        # ---- every accessor of every kind as a SELECT item and inside WHERE, text and JSON output, over a program
+        #      that has every statement with and without its optional parts (a value that cannot be rendered or
+        #      evaluated for one entity is a diagnostic or an empty cell, never the end of the process)
+        tables = json.load(open(os.path.join(C.LEAN, "Cpf", "Generated", "tables.json")))
+        from vlib import genjava as G
+        shapes = E.Project(h, {"Sink.java": G.kitchen_sink(), "Optional.java": G.optional_parts(2)}, name="shapes")
+        projs["shapes"] = shapes
+        try:
+            vars_ = dict((k, v) for k, v in tables["envCases"])
+            for k in sorted(shapes.by_kind):
+                for acc, impl in tables["envAccessors"].get(vars_.get(k), []):
+                    item = "x.%s" % acc if impl.startswith("lit:") else "x.%s()" % acc
+                    for q in ("FROM %s AS x SELECT %s" % (k, item), "FROM %s AS x SELECT x, %s, x.toString()" % (k, item),
+                              "FROM %s AS x WHERE %s == %s SELECT %s" % (k, item, item, item)):
+                        for outmode in ("", "json"):
+                            rr = h.call(op="query", graph="shapes", q=q, output=outmode, timeout=120)
+                            oc = rr.get("outcome")
+                            stats["accessor_select:" + str(oc)] += 1
+                            run.count(("accessor-select", outmode, q))
+                            if oc in ("panic", "died", "hang"):
+                                run.violation("C10:abnormal-end:" + oc,
+                                              "processQuery ended abnormally (%s) on %r (%s output): %s" % (oc, q, outmode or "text", (rr.get("panic") or "")[:200]),
+                                              dict(query=q, graph="shapes", output=outmode, outcome=oc, panic=rr.get("panic"), stack=rr.get("stack"),
+                                                   java=E.java_files(shapes)))
+                                if oc in ("died", "hang"):
+                                    proj.rescan()
+                                    tiny.rescan()
+                                    shapes.rescan()
+                                    h.call(op="scan", dir=os.path.join(proj.dir, "nonexistent"), graph="empty", nonodes=True)
+        finally:
+            shapes.close()
         run.sample(dict(query=cases[len(UNUSUAL)], outcome="see histogram"))
         run.sample(dict(query=UNUSUAL[1], note="zero-argument predicate call"))
         # ---- console transcripts through the real CLI
